@@ -228,12 +228,38 @@ Print Assumptions c12_set_of_sets.
 
 (** ** text files: one rule per line, '#' comments, surrounding white space, blank lines *)
 
+(** The loader runs Load on every rule line the scanner delivers and stops at the
+    first refused line; it reports success only if no line was refused AND the
+    scanner read the text to its end ([scan_lines]: bufio.Scanner gives up on a
+    line of 64 KiB or more). *)
 Theorem c12_loader_lines {V} (re_valid : str -> bool) (parse : @parse_fn V) dflt text (m : mix) :
-  fst (load_text re_valid parse dflt text m) = fst (load_list re_valid parse dflt 0 (text_rules text) m) /\
+  fst (load_text re_valid parse dflt text m) = fst (load_list re_valid parse dflt 0 (delivered_rules text) m) /\
   (snd (load_text re_valid parse dflt text m) = 0 <->
-   snd (load_list re_valid parse dflt 0 (text_rules text) m) = 0).
-Proof. exact (load_text_rules re_valid parse dflt text m). Qed.
+   snd (load_list re_valid parse dflt 0 (delivered_rules text) m) = 0 /\ snd (scan_lines text) = false).
+Proof. exact (load_text_scanned re_valid parse dflt text m). Qed.
 Print Assumptions c12_loader_lines.
+
+(** Either the load reports an error, or EVERY rule line of the text is in the
+    set: a successful load equals Load on all the rule strings of the whole text
+    ([text_rules] splits the complete text, whatever the line lengths). *)
+Theorem c12_loader_complete {V} (re_valid : str -> bool) (parse : @parse_fn V) dflt text (m : mix) :
+  snd (load_text re_valid parse dflt text m) = 0 ->
+  snd (scan_lines text) = false /\
+  fst (load_text re_valid parse dflt text m) = fst (load_list re_valid parse dflt 0 (text_rules text) m) /\
+  snd (load_list re_valid parse dflt 0 (text_rules text) m) = 0.
+Proof. exact (load_text_complete re_valid parse dflt text m). Qed.
+Print Assumptions c12_loader_complete.
+
+(** The scanner delivers all lines unless it gives up, and never gives up on a text under 64 KiB. *)
+Theorem c12_scanner_delivers_all text :
+  snd (scan_lines text) = false -> fst (scan_lines text) = split_lines text.
+Proof. exact (scan_lines_ok text). Qed.
+Print Assumptions c12_scanner_delivers_all.
+
+Theorem c12_scanner_short_text text :
+  N.of_nat (length text) < max_scan_token -> snd (scan_lines text) = false.
+Proof. exact (scan_lines_short text). Qed.
+Print Assumptions c12_scanner_short_text.
 
 Theorem c12_loader_adds {V} (re_valid : str -> bool) (parse : @parse_fn V) dflt ss idx (m m' : mix) :
   load_list re_valid parse dflt idx ss m = (m', 0) ->
